@@ -26,6 +26,7 @@ func genPub(ctx context.Context, logger log.Logger, suite suites.Suite, id []byt
 	go func() {
 		defer fmt.Println("1) Close genPub")
 		defer close(out)
+		defer close(secrc)
 		defer close(errc)
 
 		defer logger.TimeTrack(time.Now(), "genPub", map[string]interface{}{"GroupID": sessionID, "Topic": "Grouping"})
